@@ -146,10 +146,10 @@ every cycle passes a `PaintColrLayers` or `PaintColrGlyph` edge — exactly the 
 `traverse_with_callbacks` calls `decycler.enter`. -/
 theorem bytes_unguarded_edges_go_forward (d : List Nat) (p : Nat) :
     (∀ g ch, nodeOfBytes d p = some (.glyph g ch) → p < ch ∧ ch < d.length) ∧
-    (∀ ch, nodeOfBytes d p = some (.transform ch) → p < ch ∧ ch < d.length) ∧
+    (∀ tag ch, nodeOfBytes d p = some (.transform tag ch) → p < ch ∧ ch < d.length ∧ tag = p) ∧
     (∀ s m b, nodeOfBytes d p = some (.composite s m b) →
       (p < s ∧ s < d.length) ∧ (p < b ∧ b < d.length) ∧ m ≤ 28) :=
-  ⟨fun g ch h => nodeOfBytes_glyph h, fun ch h => nodeOfBytes_transform h,
+  ⟨fun g ch h => nodeOfBytes_glyph h, fun tag ch h => nodeOfBytes_transform h,
    fun s m b h => nodeOfBytes_composite h⟩
 
 /-! ### bounded number of visited paint nodes -/
@@ -170,9 +170,8 @@ theorem bytes_visit_bound (d : List Nat) (hbytes : Bytes d) (c : Client) (gid : 
 
 private def unimpl : Client := Client.ofModes 1 0
 
-/-- glyph 1 = `PaintColrLayers` (1 layer) whose layer is the paint itself: header (34 bytes), base glyph
-list at 34 (1 record: gid 1, paint at +10), layer list at 50 (1 offset: −6 is impossible, so the layer
-points at 44 through offset … ) — built by hand: -/
+/-- glyph 1 = `PaintColrLayers` (1 layer) whose only layer is that paint itself: header (34 bytes), base
+glyph list at 34 (gid 1 → paint at 52), layer list at 44 (layer 0 → paint at 52) -/
 private def selfLayer : List Nat :=
   [0,1, 0,0, 0,0,0,0, 0,0,0,0, 0,0,            -- version 1, no v0 records
    0,0,0,34, 0,0,0,44, 0,0,0,0, 0,0,0,0, 0,0,0,0,   -- base glyph list @34, layer list @44
@@ -200,7 +199,7 @@ private def glyphSolid : List Nat :=
    1, 0,0, 0,0, 0,100, 0,100]                 -- @67: ClipBoxFormat1 (0,0,100,100)
 
 example : (paintBytes glyphSolid unimpl 1).map (fun r => (r.1, r.2.evs, r.2.visits))
-    = some (none, [.pushClipBox, .fillGlyph 7 false, .popClip], 2) := by decide +kernel
+    = some (none, [.pushClipBox [0, 0, 100, 100], .fillGlyph 7 none [0, 3, 16384], .popClip], 2) := by decide +kernel
 
 /-- a COLRv0 table: glyph 1 has layers 0..3 but only 2 layer records exist -/
 private def v0Short : List Nat :=
@@ -209,6 +208,6 @@ private def v0Short : List Nat :=
    0,5, 0,0,  0,6, 0xFF,0xFF] -- @20 layers: (5, palette 0), (6, palette 0xFFFF = foreground)
 
 example : (paintV0Bytes v0Short unimpl 1).map (fun r => (r.1, r.2.evs))
-    = some (some .parse, [.fillGlyph 5 false, .fillGlyph 6 false]) := by decide +kernel
+    = some (some .parse, [.fillGlyph 5 none [0, 0, 16384], .fillGlyph 6 none [0, 65535, 16384]]) := by decide +kernel
 
 end FontVerif.C13Bytes
